@@ -83,6 +83,9 @@ class AvroWriter(AbstractWriter):
         self.writer.flush()
 
     def close(self) -> None:
+        if self.fp:
+            # write out the buffered block (and the header of an empty file) before closing
+            self.flush()
         if self.fp and not is_stdout(self.fp):
             self.fp.close()
         self.fp = None
